@@ -105,3 +105,11 @@ func VerifC17_QueuedIdsOfEveryOutputAreTakenOver() {
 //verif:stub github.com/relex/slog-agent/orchestrate/obase.PrepareSequentialPipeline verifStubPrepareSequentialPipeline
 //verif:reach done some-queued
 func VerifC01_QueuedIdsOfEveryOutputAreTakenOver() { VerifC17_QueuedIdsOfEveryOutputAreTakenOver() }
+
+// VerifC06_QueuedChunksAreReattachedPerKeySet: the take-over run read for C06: queued chunks found at startup under
+// any output are re-attached to the pipeline of the key set that produced them (every queued id gets its pipeline).
+//
+//verif:native off
+//verif:stub github.com/relex/slog-agent/orchestrate/obase.PrepareSequentialPipeline verifStubPrepareSequentialPipeline
+//verif:reach done some-queued
+func VerifC06_QueuedChunksAreReattachedPerKeySet() { VerifC17_QueuedIdsOfEveryOutputAreTakenOver() }
